@@ -6,6 +6,7 @@ CONSTANTS
   Requires <- MC_Requires
   Configs <- MC_Configs
   SerKey <- MC_SerKey
+  Eff <- MC_Eff
   MaxVer = 2
   MaxIdx = 4
   MaxSteps <- MC_MaxSteps
